@@ -100,7 +100,7 @@ theorem pruneDeletedTopics_dels {db : Db} {now : Time} {a : Int} {mx : Nat} {v :
     · cases h
     · injection h with h; subst h; rfl
 
-theorem delsMono_of_eq {l l' : List Delivery} (h : l' = l) : DelsMono l l' := h ▸ DelsMono.refl l
+theorem delsMono_of_eq {l l' : List Delivery} (h : l' = l) : DelsMono l l' := h ▸ DelsRel.refl rowRel_mono l
 
 /-- **frame**: every operation except seeks and the delivery prune jobs keeps each delivery row's
     identity, message, subscription, publish instant and retention end, never un-completes it and
@@ -108,96 +108,96 @@ theorem delsMono_of_eq {l l' : List Delivery} (h : l' = l) : DelsMono l l' := h 
 theorem step_mono (st : St) (op : Op) (hop : op.delsMonotone = true) :
     DelsMono st.db.dels (step st op).1.db.dels := by
   cases op with
-  | advance d => exact DelsMono.refl _
+  | advance d => exact DelsRel.refl rowRel_mono _
   | createTopic n l i =>
     simp only [step, finish_db]
     cases h : createTopic st.db st.now n l i with
-    | error e => exact DelsMono.refl _
+    | error e => exact DelsRel.refl rowRel_mono _
     | ok o => exact delsMono_of_eq (createTopic_dels h)
   | deleteTopic n =>
     simp only [step, finish_db]
     cases h : deleteTopic st.db st.now n with
-    | error e => exact DelsMono.refl _
+    | error e => exact DelsRel.refl rowRel_mono _
     | ok o => exact delsMono_of_eq (deleteTopic_dels h)
   | createSub p i =>
     simp only [step, finish_db]
     cases h : createSub st.db st.now p i with
-    | error e => exact DelsMono.refl _
+    | error e => exact DelsRel.refl rowRel_mono _
     | ok o => exact delsMono_of_eq (createSub_dels h)
   | deleteSub n =>
     simp only [step, finish_db]
     cases h : deleteSub st.db st.now n with
-    | error e => exact DelsMono.refl _
+    | error e => exact DelsRel.refl rowRel_mono _
     | ok o => exact delsMono_of_eq (deleteSub_dels h)
   | publish t tick ms =>
     simp only [step]
     cases h : publish st.db st.now t tick ms with
-    | error e => exact DelsMono.refl _
+    | error e => exact DelsRel.refl rowRel_mono _
     | ok o => exact (publish_mono h).1
   | pull s mx mb strict wait obs =>
     simp only [step]
     cases h : pull st.db st.now s mx mb strict wait obs with
-    | error e => exact DelsMono.refl _
+    | error e => exact DelsRel.refl rowRel_mono _
     | ok r => obtain ⟨o, now'⟩ := r; exact (pull_mono h).1
   | ack ids =>
     simp only [step, finish_db]
     cases h : ack st.db st.now ids with
-    | error e => exact DelsMono.refl _
+    | error e => exact DelsRel.refl rowRel_mono _
     | ok o => exact (ack_mono h).1
   | nack ids ds fw =>
     simp only [step, finish_db]
     cases h : nack st.db st.now ids ds fw with
-    | error e => exact DelsMono.refl _
+    | error e => exact DelsRel.refl rowRel_mono _
     | ok o => exact (nack_mono h).1
   | delay ids d =>
     simp only [step, finish_db]
     cases h : delay st.db st.now ids d with
-    | error e => exact DelsMono.refl _
+    | error e => exact DelsRel.refl rowRel_mono _
     | ok o => exact (delay_mono h).1
   | dlSweep mx v fw =>
     simp only [step, finish_db]
     cases h : dlSweep st.db st.now mx v fw with
-    | error e => exact DelsMono.refl _
+    | error e => exact DelsRel.refl rowRel_mono _
     | ok o => exact (dlSweep_mono h).1
   | seekTime s t => simp [Op.delsMonotone] at hop
   | seekSnap s n => simp [Op.delsMonotone] at hop
   | snapshot n s l i =>
     simp only [step, finish_db]
     cases h : createSnapshot st.db st.now n s l i with
-    | error e => exact DelsMono.refl _
+    | error e => exact DelsRel.refl rowRel_mono _
     | ok o => exact delsMono_of_eq (createSnapshot_dels h)
   | deleteSnap n =>
     simp only [step, finish_db]
     cases h : deleteSnapshot st.db n with
-    | error e => exact DelsMono.refl _
+    | error e => exact DelsRel.refl rowRel_mono _
     | ok o => exact delsMono_of_eq (deleteSnapshot_dels h)
   | setDelay n d =>
     simp only [step, finish_db]
     cases h : setDelay st.db n d with
-    | error e => exact DelsMono.refl _
+    | error e => exact DelsRel.refl rowRel_mono _
     | ok o => exact delsMono_of_eq (setDelay_dels h)
   | expireSubs mx v =>
     simp only [step, finish_db]
     cases h : expireSubs st.db st.now mx v with
-    | error e => exact DelsMono.refl _
+    | error e => exact DelsRel.refl rowRel_mono _
     | ok o => exact delsMono_of_eq (expireSubs_dels h)
   | pruneCompletedDeliveries a mx v => simp [Op.delsMonotone] at hop
   | pruneExpiredDeliveries mx v => simp [Op.delsMonotone] at hop
   | pruneCompletedMessages a mx v =>
     simp only [step, finish_db]
     cases h : pruneCompletedMessages st.db st.now a mx v with
-    | error e => exact DelsMono.refl _
+    | error e => exact DelsRel.refl rowRel_mono _
     | ok o => exact delsMono_of_eq (pruneCompletedMessages_dels h)
   | pruneDeletedSubDeliveries a mx v => simp [Op.delsMonotone] at hop
   | pruneDeletedSubs a mx v =>
     simp only [step, finish_db]
     cases h : pruneDeletedSubs st.db st.now a mx v with
-    | error e => exact DelsMono.refl _
+    | error e => exact DelsRel.refl rowRel_mono _
     | ok o => exact delsMono_of_eq (pruneDeletedSubs_dels h)
   | pruneDeletedTopics a mx v =>
     simp only [step, finish_db]
     cases h : pruneDeletedTopics st.db st.now a mx v with
-    | error e => exact DelsMono.refl _
+    | error e => exact DelsRel.refl rowRel_mono _
     | ok o => exact delsMono_of_eq (pruneDeletedTopics_dels h)
 
 /-! ### what a pull hands out -/
